@@ -627,6 +627,76 @@ Definition all_hold (l : list (string * bool)) : bool := forallb snd l.
 Definition violated (l : list (string * bool)) : list string :=
   map fst (filter (fun p => negb (snd p)) l).
 
+(* ---------- which constraint of the documented table each check belongs to ---------- *)
+Definition base_check_rows (e : env) (b : braw) : list (string * option err) :=
+  combine ["schema-source"; "schema-path-exists"; "headers-resolvable"] (base_checks e b).
+Definition client_check_rows (e : env) (r : craw) : list (string * option err) :=
+  let '(bp, bn) := base_client_of e r in
+  [ ("queries-path-given",
+     if String.eqb (r_queries_path r) "" && negb (b_custom_ops (r_base r))
+     then Some (mkerr MissingConfiguration msg_missing_fields) else None) ]
+  ++ base_check_rows e (r_base r)
+  ++ [ ("include-comments", if valid_comment (r_comments r) then None
+                            else Some (mkerr InvalidConfiguration (msg_comments (r_comments r))));
+       ("queries-path-exists", assert_path_exists e (r_queries_path r));
+       ("target-package-name", assert_identifier (r_pkg_name r));
+       ("target-package-path-dir", assert_path_is_valid_directory e (pkg_path_of e r));
+       ("client-name", assert_identifier (r_client_name r));
+       ("client-file-name", assert_identifier (r_client_file r));
+       ("base-client-name", assert_identifier bn);
+       ("base-client-file", assert_path_exists e bp);
+       ("base-client-file", assert_path_is_valid_file e bp);
+       ("base-client-class", if p_is_file e bp then assert_class_is_defined_in_file e bp bn else None);
+       ("enums-module-name", assert_identifier (r_enums r));
+       ("input-types-module-name", assert_identifier (r_inputs r));
+       ("fragments-module-name", assert_identifier (r_fragments r)) ]
+  ++ map (fun p => ("files-to-include", assert_path_is_valid_file e p)) (r_files r).
+Definition schema_check_rows (e : env) (r : graw) : list (string * option err) :=
+  base_check_rows e (gr_base r)
+  ++ combine ["target-file-type"; "schema-variable-name"; "type-map-variable-name";
+              "schema-variable-not-reserved"; "type-map-variable-not-reserved"; "variable-names-differ"]
+             (schema_asserts r).
+
+(* ---------- what this model mirrors, as data compared with the AST of settings.py on every run ----------
+   the calls / raises of the three __post_init__ methods in source order (function, self-attributes used),
+   and the TOML kind each field is read with.  A reordered, added or removed check in /repo makes the
+   check fail closed naming the first differing entry. *)
+Definition source_order_base : list (string * string) :=
+  [("raise:InvalidConfiguration", ""); ("assert_path_exists", "schema_path");
+   ("resolve_headers", "remote_schema_headers")].
+Definition source_order_client : list (string * string) :=
+  [("raise:TypeError", ""); ("__post_init__", ""); ("CommentsStrategy", "include_comments");
+   ("raise:InvalidConfiguration", ""); ("_set_default_base_client_data", "_set_default_base_client_data");
+   ("assert_path_exists", "queries_path");
+   ("assert_string_is_valid_python_identifier", "target_package_name");
+   ("assert_path_is_valid_directory", "target_package_path");
+   ("assert_string_is_valid_python_identifier", "client_name");
+   ("assert_string_is_valid_python_identifier", "client_file_name");
+   ("assert_string_is_valid_python_identifier", "base_client_name");
+   ("assert_path_exists", "base_client_file_path"); ("assert_path_is_valid_file", "base_client_file_path");
+   ("assert_class_is_defined_in_file", "base_client_name,base_client_file_path");
+   ("assert_string_is_valid_python_identifier", "enums_module_name");
+   ("assert_string_is_valid_python_identifier", "input_types_module_name");
+   ("assert_string_is_valid_python_identifier", "fragments_module_name");
+   ("assert_path_is_valid_file", "")].
+Definition source_order_schema : list (string * string) :=
+  [("__post_init__", ""); ("assert_string_is_valid_schema_target_filename", "target_file_path");
+   ("assert_string_is_valid_python_identifier", "schema_variable_name");
+   ("assert_string_is_valid_python_identifier", "type_map_variable_name");
+   ("assert_name_is_not_reserved_in_schema_module", "schema_variable_name");
+   ("assert_name_is_not_reserved_in_schema_module", "type_map_variable_name");
+   ("raise:InvalidConfiguration", "")].
+Definition field_kinds : list (string * string) :=
+  [("schema_path", "str"); ("remote_schema_url", "str"); ("remote_schema_headers", "strdict");
+   ("remote_schema_verify_ssl", "bool"); ("enable_custom_operations", "bool"); ("plugins", "strlist");
+   ("queries_path", "str"); ("target_package_name", "str"); ("target_package_path", "str");
+   ("client_name", "str"); ("client_file_name", "str"); ("base_client_name", "str");
+   ("base_client_file_path", "str"); ("enums_module_name", "str"); ("input_types_module_name", "str");
+   ("fragments_module_name", "str"); ("include_comments", "comments"); ("convert_to_snake_case", "bool");
+   ("include_all_inputs", "bool"); ("include_all_enums", "bool"); ("async_client", "bool");
+   ("opentelemetry_client", "bool"); ("files_to_include", "strlist"); ("scalars", "scalars");
+   ("target_file_path", "str"); ("schema_variable_name", "str"); ("type_map_variable_name", "str")].
+
 (* ---------- sexp interface ---------- *)
 Definition dPkind (e : sexp) : option pkind :=
   match e with
@@ -708,6 +778,12 @@ Definition run_settings (e : sexp) : sexp :=
       end
   | L [A "fields"] => L [sStrs client_field_names; sStrs schema_field_names]
   | L [A "reserved"] => sStrs reserved_variable_names
+  | L [A "source-order"] => L [sKV source_order_base; sKV source_order_client; sKV source_order_schema]
+  | L [A "field-kinds"] => sKV field_kinds
+  | L [A "messages"] =>
+      sStrs [msg_not_exist "{}"; msg_not_dir "{}"; msg_not_file "{}"; msg_not_ident "{}"; msg_no_class "{}" "{}";
+             msg_no_source; msg_env "{}"; msg_comments "{}"; msg_no_type; msg_missing_fields; msg_no_suffix "{}";
+             msg_bad_suffix "{}" "{}"; msg_reserved "{}"; msg_same_names; msg_no_section]
   | L [A "suffix"; A p] => L [A (path_suffix p); A (file_format p)]
   | L [A "identifier"; A s] => L [sB (is_identifier s); sB (is_kw s)]
   | _ => sErr "settings: bad command"
